@@ -300,7 +300,26 @@ def check(c, st):
                 total += 1
                 ref_add(f[1])
             elif how == 'update-iter':
-                tc.update(iter(list(f[1])))
+                # the iterable is a generator that looks at the counter each time it is asked for the next key: the
+                # clauses hold after EVERY addition, those made inside one update() call included
+                seen_inside = []
+
+                def observing(keys):
+                    for i_, k in enumerate(keys):
+                        seen_inside.append((i_, len(tc)))
+                        yield k
+                tc.update(observing(list(f[1])))
+                for i_, n_tracked in seen_inside:
+                    t_ = total + i_
+                    b_ = (t_ + w - 1) // w or 1
+                    worst_ = w * sum(1.0 / j for j in range(1, b_ + 1))
+                    st.monitor_evals += 1
+                    if n_tracked > 2 / thr and n_tracked > worst_ + 1e-9:
+                        return ('size_bound:beyond-lossy-counting-worst-case:inside-one-update-call',
+                                '%d additions into one update(<generator>) call (after %d in all) %d keys are tracked; '
+                                '2/threshold = %.1f and even the lossy-counting worst case w*H(b) = %.1f is exceeded'
+                                % (i_, t_, n_tracked, 2 / thr, worst_))
+                st.count('observations_inside_update_calls', len(seen_inside))
                 exact.update(f[1])
                 total += len(f[1])
                 for k in f[1]:
@@ -415,6 +434,14 @@ def check(c, st):
 
 
 def run(ctx):
+    from checks.common.cases import run_case
+    # one long update() call over many distinct keys / a heavy-tailed stream, looked at from inside the generator
+    fixed = [{'threshold': thr, 'feed': [['add', 'warm']] + [['update-iter', keys]]}
+             for thr, keys in ((0.05, list(range(2500))), (0.01, list(range(6000))),
+                               (0.1, [i % 7 if i % 3 else 'k%d' % i for i in range(1500)]), (0.02, list(range(4000))))]
+    for j, c in enumerate(fixed):
+        if j % ctx.nshards == ctx.shard % len(fixed):
+            run_case(ctx, c, check, 'tc-one-call')
     explore_cases(ctx, gen, check, {'quick': 600, 'thorough': 20000}[ctx.tier], 'tc')
     if ctx.thorough:
         # long streams, clauses every 97th addition
